@@ -27,6 +27,7 @@ fn main() {
         "c08" => c_alu::run(&mut out, seed, thorough),
         "c09" => c_flow::run(&mut out, seed, thorough),
         "c09drill" => c_flow::drill(&mut out, &extra),
+        "c15" => c_flow::run_c15(&mut out, seed, thorough),
         "c10" => c_bus::run(&mut out, seed, thorough),
         "c05" => c_mach::run_c05(&mut out, seed, thorough),
         "c07" => c_mach::run_c07(&mut out, seed, thorough),
